@@ -205,7 +205,7 @@ def run_impl(lines, env=None):
 
 def run_impl_parallel(cases, env=None, jobs=None):
     """cases: list of lists of lines (each case is run contiguously on one process)."""
-    jobs = jobs or min(NCPU, 12)
+    jobs = jobs or int(os.environ.get("SV_JOBS") or min(NCPU, 12))
     if len(cases) < 4 * jobs:
         jobs = max(1, len(cases) // 4)
     chunks = [[] for _ in range(jobs)]
@@ -375,7 +375,39 @@ def run_check(prop, tier, seed, replay=None):
     # 4. correspondence: corpus first, then generated
     ctx = {"tier": tier, "seed": seed, "rng": rng, "prop": prop, "replay": replay}
     stats = mod.run(ctx)  # returns dict with evaluations, distinct_nontrivial, samples, findings, ...
-    findings.extend(stats.pop("findings", []))
+    run_findings = stats.pop("findings", [])
+    # Confirmation pass (flake filter): a finding is reported only if the same signature shows up
+    # again when the whole run is repeated with the same seed in calm mode (few parallel workers,
+    # long watchdog). A genuine failing input is deterministic for a given seed; a time-out or a
+    # lost worker caused by machine load is not. Findings already listed as known are not affected.
+    known0 = load_known()
+    fresh = [f for f in run_findings
+             if not (f.kind == "violation" and match_known(prop, f.sig, known0) is not None)]
+    if fresh and not replay and os.environ.get("SV_NO_CONFIRM") is None:
+        log("[%s] %d finding(s) in the first pass; confirmation pass (calm mode) ..." % (prop, len(fresh)))
+        saved_env = {k: os.environ.get(k) for k in ("SV_JOBS", "SV_TIMEOUT_MS")}
+        os.environ["SV_JOBS"] = "4"
+        os.environ["SV_TIMEOUT_MS"] = str(max(60000, int(os.environ.get("SV_TIMEOUT_MS") or 0)))
+        try:
+            ctx2 = dict(ctx)
+            ctx2["rng"] = random.Random((seed * 1000003) ^ int(hashlib.sha1(prop.encode()).hexdigest()[:8], 16))
+            stats2 = mod.run(ctx2)
+            again = stats2.pop("findings", [])
+        finally:
+            for k, v in saved_env.items():
+                if v is None:
+                    os.environ.pop(k, None)
+                else:
+                    os.environ[k] = v
+        keys2 = {json.dumps(f.sig, sort_keys=True) for f in again}
+        confirmed = [f for f in run_findings if json.dumps(f.sig, sort_keys=True) in keys2
+                     or (f.kind == "violation" and match_known(prop, f.sig, known0) is not None)]
+        dropped = len(run_findings) - len(confirmed)
+        notes.append("confirmation pass: %d finding(s) in pass 1, %d in pass 2, %d not reproduced (dropped as load flakes)"
+                     % (len(run_findings), len(again), dropped))
+        stats["unconfirmed_findings_dropped"] = dropped
+        run_findings = confirmed
+    findings.extend(run_findings)
 
     # 5. a broken obligation with no failing input found by the correspondence
     known = load_known()
